@@ -111,9 +111,31 @@ def shape(b):
     return " ".join(out)
 
 
+class CodeCrashed(Exception):
+    """a goroutine of the code under test panicked: the harness process is gone"""
+
+
+def _crash_of_code(err):
+    """the part of stderr that shows a panic whose first frames lie in the code under test (None otherwise)"""
+    i = err.find("panic:")
+    if i < 0:
+        i = err.find("fatal error:")
+    if i < 0:
+        return None
+    frames = [ln for ln in err[i:].splitlines() if ln.startswith("github.com/") or ln.startswith("verifharness/")]
+    if frames and frames[0].startswith("github.com/els0r/goProbe/"):
+        return err[i:i + 2500]
+    return None
+
+
 def replay_behaviours(run, vh, behs, seed, label):
-    rc, outs, _ = vlib.run_vh(vh, ["pauselock-replay", "-seed", str(seed), "-workers", "4"],
-                              stdin_lines=[json.dumps(b, separators=(",", ":")) for b in behs], timeout=3000)
+    rc, outs, err = vlib.run_vh(vh, ["pauselock-replay", "-seed", str(seed), "-workers", "4"],
+                                stdin_lines=[json.dumps(b, separators=(",", ":")) for b in behs], timeout=3000, check=False)
+    if rc != 0:
+        crash = _crash_of_code(err)
+        if crash:
+            raise CodeCrashed(crash)
+        raise vlib.MachineryError("harness pauselock-replay -seed %s failed rc=%s\nstderr: %s" % (seed, rc, err[-3000:]))
     summ = [o for o in outs if o.get("summary")]
     vlib.require(summ and summ[0]["behaviours"] == len(behs), "%s: replay did not process all behaviours" % label)
     return summ[0], [o for o in outs if o.get("ok") is False]
@@ -130,8 +152,8 @@ def main():
             mcs += [("PauseLockMC cap=1", dict(nl=2, cap=1, rounds=1, bug="FALSE", scripts="MCScripts")),
                     ("PauseLockMC 1 holder x 3 rounds", dict(nl=1, cap=2, rounds=3, bug="FALSE", scripts="MCScripts"))]
         gens = [("PauseLockGen 2 holders", dict(nl=2, rounds=1, scripts="GenScriptsAll" if thorough else "GenScriptsQuick"))]
-        if thorough:
-            gens += [("PauseLockGen 1 holder x 3 rounds", dict(nl=1, rounds=3, scripts="GenScriptsRounds"))]
+        # several lock cycles of the same holder: what one pause leaves behind in the local buffer meets the next
+        gens += [("PauseLockGen 1 holder x 3 rounds", dict(nl=1, rounds=3, scripts="GenScriptsRounds"))]
         jobs = []
         for label, c in mcs:
             jobs.append(lambda c=c: vlib.tlc("pauselock", "PauseLockMC", {"cfg_text": MC_CFG % c}, workers=4, scratch=sc, timeout=1500))
@@ -185,7 +207,14 @@ def main():
         run.cov["schedules_with_buffered_ipv6"] = n_buf6
 
         # ---- F
-        summ, bad = replay_behaviours(run, vh, behs, run.seed, "F")
+        try:
+            summ, bad = replay_behaviours(run, vh, behs, run.seed, "F")
+        except CodeCrashed as e:
+            # the process died with the capture's own goroutine panicking: nothing else can be judged in this run
+            run.violation({"cls": "capture-goroutine-panics", "binding": "F"},
+                          {"kind": "pauselock-replay-crash", "seed": run.seed, "schedules": len(behs),
+                           "msg": "a goroutine of the capture panicked while the generated schedules were executed (the process died): " + str(e)})
+            return run.finish()
         # a time-out of the harness' waits on a busy machine must not become a verdict: schedules that
         # failed with "stuck" are executed once more, alone
         again = [o for o in bad if o["desc"].get("cls") == "stuck"]
@@ -253,6 +282,12 @@ def drive_and_validate(run, vh, sc, thorough):
         p = subprocess.run([vh, "pauselock-drive", "-seed", str(run.seed), "-traces", str(traces), "-packets", str(packets),
                             "-calls", str(calls)], stdout=fh, stderr=subprocess.PIPE, text=True, timeout=1500)
     if p.returncode != 0:
+        crash = _crash_of_code(p.stderr)
+        if crash:
+            run.violation({"cls": "capture-goroutine-panics", "binding": "B"},
+                          {"kind": "pauselock-drive", "seed": run.seed, "msg": "a goroutine of the capture panicked while the random driver ran (the process died): " + crash,
+                           "cmd": "vh pauselock-drive -seed %d -traces %d -packets %d -calls %d" % (run.seed, traces, packets, calls)})
+            return
         raise vlib.MachineryError("pauselock-drive failed (rc=%s): HEAD: %s ... TAIL: %s" % (p.returncode, p.stderr[:2500], p.stderr[-800:]))
     lines = open(tfile).read().splitlines()
     evs = [json.loads(x) for x in lines]
